@@ -356,7 +356,11 @@ func checkC12(r *Report) {
 	r.Explain = "Structural clauses of 'requirement matching is order-insensitive'. C12.a PURE and C12.b TIEBREAK on every comparator that sorts []resolve.Version (the closures in SortVersions and sortNPMVersions): write-free, and the fall-through return is on no deny-listed form (constant; bare sign test of (*semver.Version).Compare), so semver-equal distinct strings get a total tie-break and the sorted order cannot depend on the input permutation. C12.c BORROWED-ARG: MatchRequirement documents that it may modify the list it is given; no caller passes it a slice owned by a client or cache. C12.d EXACT-TAG: for a non-range npm requirement a version is returned only under an equality test between the requirement text and the version string or one tag. Not decided: exactness of the match set for ranges and the latest-tag repositioning."
 	var comps []comparator
 	for _, c := range findComparators(p, p.Funcs) {
-		if c.elem != nil && strings.HasSuffix(c.elem.String(), "deps.dev/util/resolve.Version") && p.pkgOfFn(c.fn).Pkg.Path() == modPrefix+"resolve" {
+		// every in-scope comparator that orders []resolve.Version, wherever it lives
+		// (the PyPI resolver sorts matches itself and intersects the result with the
+		// client's list, which relies on both being in the same total order); test
+		// helpers of the schema package are not part of the matching path
+		if c.elem != nil && strings.HasSuffix(c.elem.String(), "deps.dev/util/resolve.Version") && !strings.Contains(p.pkgOfFn(c.fn).Pkg.Path(), "/schema") && !strings.Contains(p.pkgOfFn(c.fn).Pkg.Path(), "/internal/") {
 			comps = append(comps, c)
 		}
 	}
@@ -395,6 +399,7 @@ func checkC12(r *Report) {
 	exactTagRule(r, p)
 	tagListRule(r, p, "C12.f/TAG-LIST")
 	sortWholeRule(r, p, "C12.g/SORT-WHOLE")
+	matchSortsRule(r, p, "C12.h/MATCH-SORTS")
 	var matchFns []*ssa.Function
 	for _, f := range pkgFuncs(p, "resolve") {
 		if strings.HasSuffix(p.Fset.Position(f.Pos()).Filename, "/match.go") {
@@ -494,57 +499,7 @@ func sortWholeRule(r *Report, p *Prog, rule string) {
 		r.bad(rule, "resolve.sortNPMVersions", "", "function not found: anchor lost")
 		return
 	}
-	var whole func(v ssa.Value, d int) (bool, string)
-	whole = func(v ssa.Value, d int) (bool, string) {
-		if d > 8 {
-			return false, ""
-		}
-		switch x := v.(type) {
-		case *ssa.Parameter:
-			return true, "the parameter " + x.Name()
-		case *ssa.UnOp:
-			if al, ok := x.X.(*ssa.Alloc); ok && x.Op == token.MUL {
-				if s := singleStore(al); s != nil {
-					return whole(s, d+1)
-				}
-			}
-		case *ssa.Slice:
-			if x.Low == nil && x.High == nil && x.Max == nil {
-				return whole(x.X, d+1)
-			}
-		case *ssa.Phi:
-			how := ""
-			for _, e := range x.Edges {
-				ok, h := whole(e, d+1)
-				if !ok {
-					return false, ""
-				}
-				how = h
-			}
-			return len(x.Edges) > 0, how
-		case *ssa.Call:
-			name := staticCalleeName(x)
-			if strings.HasPrefix(name, "slices.Clone") && len(x.Call.Args) == 1 {
-				if ok, h := whole(x.Call.Args[0], d+1); ok {
-					return true, "a copy of " + h
-				}
-			}
-			if bi, ok := x.Call.Value.(*ssa.Builtin); ok && bi.Name() == "append" && len(x.Call.Args) == 2 {
-				// append([]T(nil), w...) / append(w[:0:0], w...)
-				base := x.Call.Args[0]
-				emptyBase := false
-				if c, ok := base.(*ssa.Const); ok && c.Value == nil {
-					emptyBase = true
-				}
-				if emptyBase {
-					if ok, h := whole(x.Call.Args[1], d+1); ok {
-						return true, "a copy of " + h
-					}
-				}
-			}
-		}
-		return false, ""
-	}
+	whole := wholeOfParam
 	n := 0
 	perFn := map[*ssa.Function]int{}
 	for _, f := range p.Funcs {
@@ -680,4 +635,129 @@ func fromParamCell(v, prm ssa.Value) bool {
 		return singleStore(al) == prm
 	}
 	return false
+}
+
+// wholeOfParam: v is a parameter of the enclosing function, or a whole copy of one.
+func wholeOfParam(v ssa.Value, d int) (bool, string) {
+	whole := wholeOfParam
+	if d > 8 {
+		return false, ""
+	}
+	switch x := v.(type) {
+	case *ssa.Parameter:
+		return true, "the parameter " + x.Name()
+	case *ssa.UnOp:
+		if al, ok := x.X.(*ssa.Alloc); ok && x.Op == token.MUL {
+			if s := singleStore(al); s != nil {
+				return whole(s, d+1)
+			}
+		}
+	case *ssa.Slice:
+		if x.Low == nil && x.High == nil && x.Max == nil {
+			return whole(x.X, d+1)
+		}
+	case *ssa.Phi:
+		how := ""
+		for _, e := range x.Edges {
+			ok, h := whole(e, d+1)
+			if !ok {
+				return false, ""
+			}
+			how = h
+		}
+		return len(x.Edges) > 0, how
+	case *ssa.Call:
+		name := staticCalleeName(x)
+		if strings.HasPrefix(name, "slices.Clone") && len(x.Call.Args) == 1 {
+			if ok, h := whole(x.Call.Args[0], d+1); ok {
+				return true, "a copy of " + h
+			}
+		}
+		if bi, ok := x.Call.Value.(*ssa.Builtin); ok && bi.Name() == "append" && len(x.Call.Args) == 2 {
+			// append([]T(nil), w...) / append(w[:0:0], w...)
+			base := x.Call.Args[0]
+			emptyBase := false
+			if c, ok := base.(*ssa.Const); ok && c.Value == nil {
+				emptyBase = true
+			}
+			if emptyBase {
+				if ok, h := whole(x.Call.Args[1], d+1); ok {
+					return true, "a copy of " + h
+				}
+			}
+		}
+	}
+	return false, ""
+}
+
+// matchSortsRule: see checkC12 (C12.h).
+func matchSortsRule(r *Report, p *Prog, rule string) {
+	mr := p.lookupFn("resolve.MatchRequirement")
+	if mr == nil {
+		r.bad(rule, "resolve.MatchRequirement", "", "function not found: anchor lost")
+		return
+	}
+	seen := map[*ssa.Function]bool{}
+	n := 0
+	for _, b := range mr.Blocks {
+		for _, in := range b.Instrs {
+			c, ok := in.(*ssa.Call)
+			if !ok {
+				continue
+			}
+			m := c.Call.StaticCallee()
+			if m == nil || seen[m] || !p.inScope(m) || m.Signature.Results().Len() != 1 || !strings.HasSuffix(m.Signature.Results().At(0).Type().String(), "[]deps.dev/util/resolve.Version") {
+				continue
+			}
+			seen[m] = true
+			n++
+			key := fnKey(m) + ": sorts the list it matches against"
+			// blocks with a sort of the whole parameter
+			var sorts []*ssa.BasicBlock
+			for _, mb := range m.Blocks {
+				for _, mi := range mb.Instrs {
+					sc, ok := mi.(*ssa.Call)
+					if !ok {
+						continue
+					}
+					name := staticCalleeName(sc)
+					if (name == "resolve.SortVersions" || name == "resolve.sortNPMVersions") && len(sc.Call.Args) == 1 {
+						if ok, _ := wholeOfParam(sc.Call.Args[0], 0); ok {
+							sorts = append(sorts, mb)
+						}
+					}
+				}
+			}
+			bad := ""
+			for _, mb := range m.Blocks {
+				ret, ok := mb.Instrs[len(mb.Instrs)-1].(*ssa.Return)
+				if !ok || len(ret.Results) != 1 {
+					continue
+				}
+				if k, ok := ret.Results[0].(*ssa.Const); ok && k.Value == nil {
+					continue // nil: nothing matched
+				}
+				if sl, ok := ret.Results[0].(*ssa.Slice); ok {
+					if al, ok := sl.X.(*ssa.Alloc); ok && strings.HasPrefix(al.Type().String(), "*[1]") {
+						continue // a single version
+					}
+				}
+				dominated := false
+				for _, sb := range sorts {
+					if sb == mb || sb.Dominates(mb) {
+						dominated = true
+					}
+				}
+				if !dominated && bad == "" {
+					bad = p.pos(ret.Pos())
+				}
+			}
+			if bad != "" {
+				r.bad(rule, key, bad, "a list of matches is returned on a path that never sorted the versions it was given: the result comes back in the order of the input list, so it differs between permutations of the same list (the other matcher sorts first)")
+			} else {
+				r.ok(rule, key, p.pos(m.Pos()), "every return of more than one version is dominated by a sort of the complete parameter")
+			}
+		}
+	}
+	r.floor(rule, "matchers MatchRequirement dispatches to", n, 2)
 }
